@@ -161,6 +161,13 @@ def g_read(data: bytes, entry: str = "flat", src=None) -> list:
         return out
     if entry == "to_graph":
         sink = gp.parse_jelly_to_graph(inp)
+    elif entry == "to_graph_factory":
+        class MySink(gs.GenericStatementSink):
+            pass
+
+        sink = gp.parse_jelly_to_graph(inp, sink_factory=lambda: MySink())
+        if not isinstance(sink, MySink):
+            raise AssertionError("parse_jelly_to_graph ignored the supplied sink_factory")
     elif entry == "sink_parse":
         sink = gs.GenericStatementSink()
         sink.parse(inp)
@@ -296,6 +303,18 @@ def r_read(data: bytes, entry: str = "flat", src=None, quads: bool = False) -> l
         return out
     if entry == "to_graph":
         return _graph_events(rp.parse_jelly_to_graph(inp))
+    if entry == "to_graph_factory":
+        class MyGraph(rdflib.Graph):
+            pass
+
+        class MyDataset(rdflib.Dataset):
+            pass
+
+        g = rp.parse_jelly_to_graph(inp, graph_factory=lambda: MyGraph(),
+                                    dataset_factory=lambda: MyDataset())
+        if not isinstance(g, (MyGraph, MyDataset)):
+            raise AssertionError("parse_jelly_to_graph ignored the supplied factories")
+        return _graph_events(g)
     if entry == "graph_parse":
         g = rdflib.Dataset() if quads else rdflib.Graph()
         g.parse(inp, format="jelly")
